@@ -575,10 +575,27 @@ func runNative(vd, rd, tmp, pkg string, ov, testOv map[string]string, files []st
 	if pkg == "" || pkg == "." {
 		p = "."
 	}
-	cmd := exec.Command("timeout", "600", "go", "test", "-tags", "verif", "-overlay", ovPath, "-vet=off", "-count=1", "-run", "^TestVsymReplay$", p)
-	cmd.Dir = rd
-	cmd.Env = append(goEnv(), "VSYM_REPLAY_LIST="+listPath, "VSYM_REPLAY_OUT="+outPath)
-	out, err := cmd.CombinedOutput()
+	var out []byte
+	var err error
+	if _, serr := os.Stat(filepath.Join(rd, pkg)); serr != nil && pkg != "" && pkg != "." {
+		// a package that exists only in the overlay: `go test` cannot chdir into it - build the test binary and run it elsewhere
+		bin := filepath.Join(tmp, "replay-"+strings.ReplaceAll(pkg, "/", "_")+".test")
+		build := exec.Command("timeout", "600", "go", "test", "-tags", "verif", "-overlay", ovPath, "-vet=off", "-c", "-o", bin, p)
+		build.Dir = rd
+		build.Env = goEnv()
+		if bout, berr := build.CombinedOutput(); berr != nil {
+			return nil, fmt.Errorf("go test -c failed: %v\n%s", berr, bout)
+		}
+		run := exec.Command("timeout", "600", bin, "-test.run", "^TestVsymReplay$", "-test.count=1")
+		run.Dir = tmp
+		run.Env = append(goEnv(), "VSYM_REPLAY_LIST="+listPath, "VSYM_REPLAY_OUT="+outPath)
+		out, err = run.CombinedOutput()
+	} else {
+		cmd := exec.Command("timeout", "600", "go", "test", "-tags", "verif", "-overlay", ovPath, "-vet=off", "-count=1", "-run", "^TestVsymReplay$", p)
+		cmd.Dir = rd
+		cmd.Env = append(goEnv(), "VSYM_REPLAY_LIST="+listPath, "VSYM_REPLAY_OUT="+outPath)
+		out, err = cmd.CombinedOutput()
+	}
 	if err != nil {
 		return nil, fmt.Errorf("go test failed: %v\n%s", err, out)
 	}
